@@ -3,6 +3,8 @@ package main
 import (
 	"fmt"
 	"strings"
+
+	"github.com/MichaelMure/git-bug/util/lamport"
 )
 
 func init() {
@@ -14,8 +16,43 @@ func init() {
 // a remote, then synchronisation to quiescence. Every pull is a `mergeAll` case for the model
 // (C02: statuses, heads, merge commits, returned entities, clocks); at the end every replica's
 // view of every bug is a `read` case and the convergence oracle (C01) compares the replicas.
+// c01FarMerge: the replica that has to join two branches has seen, on other bugs, clocks far ahead of this
+// bug's (the clocks are per kind of entity, not per bug): the commit that joins them stands more than the
+// plausible hop above both parents, and is exempt from that limit — everybody reads the merged bug.
+func c01FarMerge(c *runCtx, prop string) {
+	for rep := 0; rep < c.pick(2, 6); rep++ {
+		r := c.rng.fork()
+		s := newReplicaSys(c, r, 2)
+		A, B := s.reps[0], s.reps[1]
+		s.newBug(A)
+		s.push(A)
+		s.pull(B, false)
+		s.edit(A, 2)
+		s.edit(B, 2)
+		s.push(A)
+		if err := B.repo.Witness("bugs-edit", lamport.Time(2_500_000+r.intn(1000))); err != nil {
+			panic(err)
+		}
+		s.logf("B:witness(far)")
+		s.pull(B, prop == "C02") // B joins the branches at a far time
+		s.push(B)
+		s.pull(A, prop == "C02")
+		for _, rp := range s.reps {
+			for _, id := range s.bugIds {
+				if _, err := safeRead(rp.repo, id); err != nil {
+					c.violation(-1, "C01/unreadable", fmt.Sprintf("after a merge written by a replica whose clock is far ahead, %s cannot read bug %s: %v; schedule %v", rp.name, id.Human(), err, s.log), nil)
+				}
+			}
+		}
+		c.count("far-merge")
+		s.close()
+		cleanupScratch()
+	}
+}
+
 func runReplicas(c *runCtx, prop string) {
 	defer cleanupScratch()
+	c01FarMerge(c, prop)
 	N := c.pick(14, 220)
 	for i := 0; i < N; i++ {
 		r := c.rng.fork()
